@@ -21,7 +21,13 @@ MANIFEST = {
             "and Rodrigues formulas (reference itself cross-checked against scipy.spatial.transform.Rotation before every run). "
             "Conversions are compared as rotation matrices (q and -q identified), round trips are generated away from gimbal "
             "lock, setters/getters of the linear transforms are exercised for Parameter-held (squashed) and tensor-held "
-            "parameters. Exploration: no absence proof; bounds are 64 eps(dtype) x condition, the errors the property is "
+            "parameters; the set -> get round trip is also taken across public state toggles placed between setter and getters "
+            "(requires_grad_ / params.requires_grad - the documented way to freeze -, train/eval, to(dtype), state_dict -> load_state_dict, "
+            "copy, deepcopy, zero_grad; stand-alone and as member of the Rigid/Similarity/Affine/FullAffine composites; read directly and "
+            "through inverse()/inverse(link=True)). Every conversion / constructor function is additionally called several times with "
+            "different arguments while all results stay alive: each result is snapshotted after its own call and compared with the "
+            "reference only after the last call (no result may change, share memory with another result or with module-level tensors, "
+            "or be affected by writing into another result). Exploration: no absence proof; bounds are 64 eps(dtype) x condition, the errors the property is "
             "about (transposed factor, swapped angles, sign, wrong branch, dropped translation) are O(0.1-1).",
     "note": "Trusted: numpy matmul, vlib.ref rotation formulas (checked against scipy at start-up), the shape rule "
             "'(D,) or (...,D,1) translation / (...,D,D) affine / (...,D,D+1) homogeneous' taken from the docstrings. "
@@ -40,6 +46,13 @@ ASSUMPTIONS = [
     "Parameter-held scales are generated inside the range of the squashing (exp(tanh(.)): 0.4..2.7), shear angles inside "
     "(-pi/4, pi/4); tensor-held parameters are unrestricted",
     "leading shapes generated: none, (1,), (N,), (2,N) with N in {2,3}; operands of one call share the dtype",
+    "state toggles: a transformation is given the dtype of the values before they are set (module.to); a later to(float32) rounds the "
+    "stored (encoded) parameters once, which adds eps32 (|value| + 1) to the bounds; state_dict is loaded into a fresh transformation of "
+    "the same class, constructor arguments, Parameter/buffer kind and dtype; getters of an inverse() view return the stored parameters, "
+    "tensor()/matrix() the inverse map (checked only for cond <= 1e3, bound scaled by cond)",
+    "call isolation: results may share memory with their own arguments (as_homogeneous_matrix documents a reference, translation() returns "
+    "a view) but not with results of calls with other arguments nor with module-level tensors; vector_rotation is generated with "
+    "angle(a, b) in [0.3, 1.2] (it uses asin of the cross-product norm), bound scaled by 1/cos",
 ]
 
 
@@ -83,6 +96,7 @@ def selftest():
     x = np.arange(6.0).reshape(2, 3)
     assert np.array_equal(np_full(x[:, 2], 2), np.array([[1, 0, 2], [0, 1, 5.0]]))
     assert np.array_equal(np_full(x[:, :2], 2), np.array([[0, 1, 0], [3, 4, 0.0]]))
+    selftest_iso()
 
 
 # ---------------------------------------------------------------------------------------
@@ -996,6 +1010,653 @@ def run_setters(case):
 
 
 # ---------------------------------------------------------------------------------------
+# facet 8: setter_toggles - parameter set -> (public state toggles) -> get round trips
+
+
+TOGGLES = ["freeze", "unfreeze", "flag_false", "flag_true", "eval", "train", "to64", "to32", "state_dict", "copy", "deepcopy",
+           "zero_grad"]
+VIEWS = ["none", "none", "inverse", "inverse_linked", "inverse_twice"]
+COMPOSITE_OF = {
+    "EulerRotation": [("RigidTransform", "rotation"), ("SimilarityTransform", "rotation"), ("AffineTransform", "rotation"),
+                      ("FullAffineTransform", "rotation")],
+    "QuaternionRotation": [("RigidQuaternionTransform", "rotation")],
+    "IsotropicScaling": [("SimilarityTransform", "scaling")],
+    "AnisotropicScaling": [("AffineTransform", "scaling"), ("FullAffineTransform", "scaling")],
+    "Shearing": [("FullAffineTransform", "shearing")],
+    "Translation": [("RigidTransform", "translation"), ("RigidQuaternionTransform", "translation"), ("FullAffineTransform", "translation")],
+}
+COMPOSITE_ARGS = {"RigidTransform": ("rotation", "translation"), "RigidQuaternionTransform": ("rotation", "translation"),
+                  "SimilarityTransform": ("scaling", "rotation", "translation"), "AffineTransform": ("scaling", "rotation", "translation"),
+                  "FullAffineTransform": ("scaling", "shearing", "rotation", "translation")}
+
+
+@st.composite
+def toggle_cases(draw):
+    case = dict(draw(setter_cases().filter(lambda c: c["op"] != "ctor")))
+    tog = st.sampled_from(TOGGLES + ["freeze", "freeze", "flag_false"])
+    case["pre"] = draw(st.lists(tog, min_size=0, max_size=2))
+    case["post"] = draw(st.lists(tog, min_size=1, max_size=3))
+    case["view"] = draw(st.sampled_from(VIEWS))
+    case["functional"] = draw(st.booleans()) and case["op"] == "matrix"
+    comps = COMPOSITE_OF.get(case["cls"], [])
+    if comps and not case["functional"] and draw(st.booleans()):
+        ok = [c for c in comps if not (c[0] == "RigidQuaternionTransform" and case["D"] != 3)]
+        case["composite"] = list(draw(st.sampled_from(ok)))
+        if case["cls"] == "EulerRotation":
+            case["order"] = None          # the composites build their EulerRotation with the default order
+    else:
+        case["composite"] = None
+    return case
+
+
+def toggle_enumeration(tier):
+    """Every class x every toggle placed between set and get (Parameter-held, N in {1, 2}), plus set-while-frozen -> unfreeze."""
+    base = {
+        "EulerRotation": lambda D, N: [[0.7 - 0.3 * i, 1.1 + 0.2 * i, -2.3 + 0.4 * i][:3 if D == 3 else 1] for i in range(N)],
+        "QuaternionRotation": lambda D, N: [[0.5 + 0.1 * i, -0.7, 0.3, 0.9] for i in range(N)],
+        "IsotropicScaling": lambda D, N: [[1.7 - 0.9 * i] for i in range(N)],
+        "AnisotropicScaling": lambda D, N: [[0.6 + 0.2 * i, 1.9, 2.4][:D] for i in range(N)],
+        "Shearing": lambda D, N: [[0.4 - 0.5 * i, -0.6, 0.25][:3 if D == 3 else 1] for i in range(N)],
+        "Translation": lambda D, N: [[3.5 + i, -1.25, 0.75][:D] for i in range(N)],
+        "HomogeneousTransform": lambda D, N: [[round(0.3 * j - 0.9 + 0.1 * i, 2) for j in range(D * (D + 1))] for i in range(N)],
+    }
+    i = 0
+    for cls, mk in base.items():
+        for tog in TOGGLES:
+            for pre, post in (([], [tog]), ([tog], ["unfreeze" if tog in ("freeze", "flag_false") else "freeze"])):
+                i += 1
+                D = 3 if (cls == "QuaternionRotation" or i % 2) else 2
+                N = 1 + i % 2
+                op = "matrix" if cls == "HomogeneousTransform" or (cls in ("EulerRotation", "QuaternionRotation") and i % 3 == 0) else "params"
+                comps = COMPOSITE_OF.get(cls, [])
+                comp = list(comps[i % len(comps)]) if comps and i % 4 == 0 else None
+                if comp and comp[0] == "RigidQuaternionTransform":
+                    D = 3
+                yield {"cls": cls, "D": D, "N": N, "held": "parameter", "dtype": "float32" if i % 3 else "float64", "op": op,
+                       "order": None if (comp or D == 2 or cls != "EulerRotation") else ["zxz", "xzx", "xyz"][i % 3 if op == "params" else i % 2],
+                       "values": mk(D, N), "pre": pre, "post": post, "view": VIEWS[1 + i % 4] if i % 5 == 0 else "none",
+                       "functional": False, "composite": comp}
+
+
+def toggle_model(cls, D, used, order, op, eps, values):
+    """Documented meaning of the parameters: (getter name, expected getter value, its tolerance, linear part, translation, matrix tol)."""
+    N = used.shape[0]
+    zero_t = np.zeros((N, D))
+    if cls == "EulerRotation":
+        R = euler_reference(D, order.lower() if order else None, used)
+        if op == "matrix":
+            cond = 1.0 if D == 2 else 1.0 + max(1.0 / abs(math.sin(a[1])) for a in values)
+            return None, None, 0.0, R, zero_t, 64 * eps * 4 * cond
+        return "angles", used, 64 * eps * math.pi, R, zero_t, 64 * eps * 4
+    if cls == "QuaternionRotation":
+        R = rot_of_quats(used)
+        if op == "matrix":
+            return None, None, 0.0, R, zero_t, 64 * eps * 4 + FLOOR_M2Q
+        return "quaternion", used / np.linalg.norm(used, axis=1, keepdims=True), 16 * eps, R, zero_t, 64 * eps
+    if cls in ("IsotropicScaling", "AnisotropicScaling"):
+        tol = 64 * eps * float(np.abs(used).max() + 1)
+        diag = np.zeros((N, D, D))
+        for i in range(D):
+            diag[:, i, i] = used[:, 0] if cls == "IsotropicScaling" else used[:, i]
+        return "scales", used, tol, diag, zero_t, tol
+    if cls == "Shearing":
+        M = np.tile(np.eye(D), (N, 1, 1))
+        for j, (r, c) in enumerate([(0, 1)] if D == 2 else [(0, 1), (0, 2), (1, 2)]):
+            M[:, r, c] = np.tan(used[:, j])
+        return "angles", used, 64 * eps, M, zero_t, 64 * eps * float((1 + np.tan(used) ** 2).max())
+    if cls == "Translation":
+        return "offset", used, 0.0, np.tile(np.eye(D), (N, 1, 1)), used, 0.0
+    M = used.reshape(N, D, D + 1)
+    return None, None, 0.0, M[:, :, :D], M[:, :, D], 0.0
+
+
+def second_values(cls, held, op, vals64):
+    """Values of a second, simultaneously alive transform of the same class (a different valid parameter set)."""
+    if cls == "QuaternionRotation":
+        return vals64 * np.array([1.0, -1.0, -1.0, -1.0])
+    if cls in ("IsotropicScaling", "AnisotropicScaling"):
+        return np.round(3.1 - vals64, 6) if (held == "parameter" and op == "params") else vals64 + 0.25
+    return -vals64
+
+
+def run_toggles(case):
+    import copy as _copy
+
+    import deepali.spatial as S
+    from deepali.core import Grid
+    from torch.nn import Parameter
+
+    cls, D, N, held, op = case["cls"], case["D"], case["N"], case["held"], case["op"]
+    dt = tdtype(case["dtype"])
+    grid = Grid(shape=[5, 4, 3][:D])
+    comp = case.get("composite")
+    order = case.get("order") if cls == "EulerRotation" else None
+    flag = held == "parameter"
+    labels = [cls, f"D={D}", f"N={N}", held, op, case["dtype"], "view=" + case["view"], "composite=" + (comp[0] if comp else "-"),
+              "functional" if case.get("functional") else "in-place"] + ["post=" + t for t in case["post"]] + ["pre=" + t for t in case["pre"]]
+
+    def make_root(dtype):
+        if comp:
+            root = getattr(S, comp[0])(grid, groups=N, **{k: flag for k in COMPOSITE_ARGS[comp[0]]})
+        else:
+            kw = {"order": order} if order is not None else {}
+            root = getattr(S, cls)(grid, groups=N, params=flag, **kw)
+        return root.to(dtype)
+
+    def member(root):
+        return getattr(root, comp[1]) if comp else root
+
+    state = {"cur": dt, "eps": eps_of(dt), "exact": True}
+
+    def toggle(root, tog):
+        m = member(root)
+        if tog == "freeze":
+            root.requires_grad_(False)
+        elif tog == "unfreeze":
+            root.requires_grad_(True)
+        elif tog in ("flag_false", "flag_true"):
+            if isinstance(m.params, Parameter):       # documented: "set params.requires_grad = False"
+                m.params.requires_grad = tog == "flag_true"
+        elif tog == "eval":
+            root.eval()
+        elif tog == "train":
+            root.train()
+        elif tog in ("to64", "to32"):
+            new = torch.float64 if tog == "to64" else torch.float32
+            root = root.to(new)
+            if new != state["cur"]:
+                state["exact"] = False
+            state["cur"] = new
+            state["eps"] = max(state["eps"], eps_of(new))
+        elif tog == "state_dict":
+            fresh = make_root(state["cur"])
+            fresh.load_state_dict(root.state_dict())
+            root = fresh
+        elif tog == "copy":
+            root = _copy.copy(root)
+        elif tog == "deepcopy":
+            root = _copy.deepcopy(root)
+        elif tog == "zero_grad":
+            root.zero_grad()
+        else:
+            raise AssertionError(tog)
+        return root
+
+    def setter(root, vals):
+        m = member(root)
+        if op == "matrix":
+            if cls == "HomogeneousTransform":
+                arg = vals.reshape(N, D, D + 1)
+            else:
+                used_ = vals.double().numpy()
+                Rn = euler_reference(D, order.lower() if order else None, used_) if cls == "EulerRotation" else rot_of_quats(used_)
+                arg = torch.tensor(Rn, dtype=vals.dtype)
+            if case.get("functional"):
+                before = m.data().detach().clone()
+                m2 = m.matrix(arg)
+                if m2 is m:
+                    raise Violation("setter_functional_copy", f"{cls}.matrix(arg) returned self instead of a copy")
+                if not torch.equal(m.data().detach(), before):
+                    raise Violation("setter_functional_copy", f"{cls}.matrix(arg) modified the parameters of the original transformation")
+                return m2, arg
+            m.matrix_(arg)
+            return root, arg
+        name = {"EulerRotation": "angles_", "Shearing": "angles_", "QuaternionRotation": "quaternion_", "IsotropicScaling": "scales_",
+                "AnisotropicScaling": "scales_", "Translation": "offset_"}[cls]
+        getattr(m, name)(vals)
+        return root, None
+
+    def read(root):
+        """All getters of the (viewed) member and of the composite, evaluated before anything is compared."""
+        m = member(root)
+        view = state["view"]
+        inverted = False
+        if view == "inverse":
+            m, inverted = m.inverse(), True
+        elif view == "inverse_linked":
+            m, inverted = m.inverse(link=True), True
+        elif view == "inverse_twice":
+            m = m.inverse().inverse()
+        out = {"held": isinstance(member(root).params, Parameter), "inverted": inverted}
+        for g in ("angles", "scales", "quaternion", "offset"):
+            if hasattr(m, g):
+                out[g] = getattr(m, g)()
+        out["tensor"] = m.tensor()
+        out["matrix"] = m.matrix()
+        if comp:
+            out["root"] = root.tensor()
+        return out
+
+    vals64 = np.asarray(case["values"], dtype=np.float64)
+    sets = [vals64, second_values(cls, held, op, vals64)]
+    roots, args_ = [], []
+    for v in sets:
+        state["cur"] = dt
+        root = make_root(dt)
+        for tog in case["pre"]:
+            root = toggle(root, tog)
+        # parameters are set with values of the dtype the transformation currently has; only later conversions round them
+        state.update(eps=eps_of(state["cur"]), exact=True)
+        vals = torch.tensor(v, dtype=state["cur"])
+        keep = vals.clone()
+        root, arg = setter(root, vals)
+        if not torch.equal(vals, keep):
+            raise Violation("setter_input_modified", f"{cls}: the setter modified its argument")
+        for tog in case["post"]:
+            root = toggle(root, tog)
+        roots.append(root)
+        args_.append((vals, arg))
+    # an inverse view is taken only of (well conditioned) invertible transformations
+    state["view"] = case["view"]
+    if case["view"] in ("inverse", "inverse_linked", "inverse_twice"):
+        for vals, arg in args_:
+            used = vals.double().numpy()
+            _, _, _, lin, trans, _ = toggle_model(cls, D, used, order, "params", 1.0, None)
+            sq = np_square(np.concatenate([lin, trans[..., None]], axis=-1))
+            dets = [abs(np.linalg.det(sq[i])) for i in range(N)]
+            if min(dets) < 1e-3 or float(np.abs(sq).max() * np.abs(np.linalg.inv(sq)).max()) * (D + 1) > 1e3:
+                state["view"] = "none"
+                labels.append("inverse-skipped")
+    # evaluate all operands first (both transforms, twice), compare afterwards
+    reads, snaps = [], []
+    for which in (0, 1, 0):
+        r = read(roots[which])
+        reads.append(r)
+        snaps.append({k: (v.detach().clone() if isinstance(v, torch.Tensor) else v) for k, v in r.items()})
+    eps = state["eps"]
+    worst = 0.0
+    what0 = f"{cls}{'@' + comp[0] if comp else ''} {op} setter, then {case['post']} (before the setter: {case['pre']}), view={state['view']}"
+    for idx, (r, which) in enumerate(zip(reads, (0, 1, 0))):
+        vals, arg = args_[which]
+        used = vals.double().numpy()
+        if op == "matrix" and cls != "HomogeneousTransform":
+            valsrc = [[float(x) for x in row] for row in used]
+        else:
+            valsrc = None
+        getter, pvals, ptol, lin, trans, mtol = toggle_model(cls, D, used, order, op, eps, valsrc)
+        if arg is not None and cls != "HomogeneousTransform":
+            lin = arg.double().numpy()
+        conv = 0.0 if state["exact"] else eps * float(np.abs(used).max() + 1)
+        what = what0 + f" [transform {which}, read {idx}]"
+        if r["held"] != flag:
+            raise Violation("toggle_param_kind", what + ": params changed kind (Parameter vs tensor)")
+        if getter is not None:
+            worst = max(worst, check_close(r[getter], pvals, ptol + conv, "toggle_getter", what + f": {getter}() != value set"))
+        full = np.concatenate([lin, trans[..., None]], axis=-1)
+        mt = mtol + conv
+        if r["inverted"]:
+            sq = np_square(full)
+            inv = np.linalg.inv(sq)
+            kappa = float(np.abs(sq).max() * np.abs(inv).max()) * (D + 1)
+            full = inv[:, :D, :]
+            mt = mt * kappa + 64 * eps * kappa * (1 + float(np.abs(inv).max()))
+        for key in ("tensor", "matrix") + (("root",) if comp else ()):
+            if key == "root" and r["inverted"]:
+                continue                      # the view was taken of the member only
+            m = r[key]
+            if key == "matrix" and tuple(m.shape) != (N, D, D + 1):
+                raise Violation("toggle_matrix_shape", what + f": matrix() has shape {tuple(m.shape)}")
+            worst = max(worst, check_close(np_full(m.detach().double().numpy(), D), full, mt, "toggle_matrix",
+                                           what + f": {key}() is not the transformation that was set"))
+        for k, v in r.items():
+            if isinstance(v, torch.Tensor) and not torch.equal(v.detach(), snaps[idx][k]):
+                raise Violation("toggle_result_overwritten", what + f": value returned by {k}() changed after later calls")
+    # the two reads of transform 0 must agree with each other (nothing in between changed it)
+    for k, v in reads[0].items():
+        if isinstance(v, torch.Tensor):
+            check_close(reads[2][k], v.detach(), 4 * eps * float(v.detach().abs().max() + 1), "toggle_not_repeatable",
+                        what0 + f": {k}() differs between two reads")
+    nt = any(t in ("freeze", "flag_false", "unfreeze", "flag_true", "to64", "to32", "state_dict", "deepcopy", "copy") for t in case["post"])
+    return {"ratio": worst, "nontrivial": nt and held == "parameter", "labels": labels}
+
+
+# ---------------------------------------------------------------------------------------
+# facet 9: call_isolation - several results of one function alive at the same time
+
+
+def _unit_rows(a, fallback):
+    a = np.array(a, dtype=np.float64)
+    for i in range(a.shape[0]):
+        nrm = np.linalg.norm(a[i])
+        a[i] = np.asarray(fallback, dtype=np.float64) if nrm < 0.2 else a[i] / nrm
+    return a
+
+
+def iso_vectors(key, n):
+    """Rotation vectors with generic axes and angles in [0.3, 2.8]."""
+    ax = _unit_rows(hash_noise((n, 3), key, -1.0, 1.0), [0.0, 0.0, 1.0])
+    return np.round(ax * hash_noise((n, 1), key + 7, 0.3, 2.8), 4)
+
+
+def iso_quats(key, n):
+    """Unit quaternions of rotations by 0.3 .. 2.8 rad, either sign of w."""
+    v = iso_vectors(key, n)
+    th = np.linalg.norm(v, axis=1, keepdims=True)
+    q = np.concatenate([np.cos(th / 2), np.sin(th / 2) * v / th], axis=1)
+    return q * np.where(hash_noise((n, 1), key + 11, -1.0, 1.0) < 0, -1.0, 1.0)
+
+
+def iso_specs():
+    """name -> builder(key, n, dt, D, batch) -> dict(args, kwargs, expect, canon, bound, inverse).
+
+    'args' are the tensors of one call, 'expect' the float64 value the result must have after canon(result) (both as rotation
+    / transformation matrices), computed from the values actually passed; 'inverse' (optional) builds the arguments of the
+    inverse rotation such that result(args) @ result(inverse) = I."""
+    from deepali.core import affine as A
+    from deepali.core import linalg as L
+
+    ident = lambda x: x  # noqa: E731
+    T = lambda a, dt: torch.tensor(np.ascontiguousarray(a), dtype=dt)  # noqa: E731
+    N64 = lambda t: t.detach().double().numpy()  # noqa: E731
+    specs = {}
+
+    def spec(name, fn):
+        def deco(builder):
+            specs[name] = (fn, builder)
+            return builder
+        return deco
+
+    @spec("angle_axis_to_rotation_matrix", L.angle_axis_to_rotation_matrix)
+    def _(key, n, dt, D, batch):
+        v = T(iso_vectors(key, n), dt)
+        th = np.linalg.norm(N64(v), axis=1)
+        return dict(args=[v], expect=rot_of_vecs(N64(v)), canon=ident, bound=64 * eps_of(dt) + max(floor_aa(float(x)) for x in th),
+                    inverse=lambda: [-v])
+
+    @spec("angle_axis_to_quaternion", L.angle_axis_to_quaternion)
+    def _(key, n, dt, D, batch):
+        v = T(iso_vectors(key, n), dt)
+        return dict(args=[v], expect=rot_of_vecs(N64(v)), canon=rot_of_quats, bound=256 * eps_of(dt))
+
+    @spec("quaternion_log_to_exp", L.quaternion_log_to_exp)
+    def _(key, n, dt, D, batch):
+        v = T(iso_vectors(key, n) / 2, dt)
+        return dict(args=[v], expect=rot_of_vecs(2 * N64(v)), canon=rot_of_quats, bound=256 * eps_of(dt))
+
+    @spec("normalize_quaternion", L.normalize_quaternion)
+    def _(key, n, dt, D, batch):
+        q = T(np.round(iso_quats(key, n) * (0.5 + key % 5), 4), dt)
+        return dict(args=[q], expect=N64(q) / np.linalg.norm(N64(q), axis=1, keepdims=True), canon=ident, bound=8 * eps_of(dt))
+
+    @spec("quaternion_to_rotation_matrix", L.quaternion_to_rotation_matrix)
+    def _(key, n, dt, D, batch):
+        q = T(iso_quats(key, n), dt)
+        return dict(args=[q], expect=rot_of_quats(N64(q)), canon=ident, bound=64 * eps_of(dt),
+                    inverse=lambda: [q * torch.tensor([1.0, -1.0, -1.0, -1.0], dtype=dt)])
+
+    @spec("quaternion_to_angle_axis", L.quaternion_to_angle_axis)
+    def _(key, n, dt, D, batch):
+        q = T(iso_quats(key, n), dt)
+        return dict(args=[q], expect=rot_of_quats(N64(q)), canon=rot_of_vecs, bound=256 * eps_of(dt))
+
+    @spec("quaternion_exp_to_log", L.quaternion_exp_to_log)
+    def _(key, n, dt, D, batch):
+        q = T(iso_quats(key, n), dt)
+        vn = float(np.linalg.norm(N64(q)[:, 1:], axis=1).min())       # >= sin(0.15)
+        return dict(args=[q], expect=rot_of_quats(N64(q)), canon=lambda lg: rot_of_vecs(2 * lg), bound=256 * eps_of(dt) * (1 + 1 / vn))
+
+    @spec("rotation_matrix_to_quaternion", L.rotation_matrix_to_quaternion)
+    def _(key, n, dt, D, batch):
+        R = T(rot_of_quats(iso_quats(key, n)), dt)
+        return dict(args=[R], expect=N64(R), canon=rot_of_quats, bound=256 * eps_of(dt) + FLOOR_M2Q)
+
+    @spec("rotation_matrix_to_angle_axis", L.rotation_matrix_to_angle_axis)
+    def _(key, n, dt, D, batch):
+        R = T(rot_of_quats(iso_quats(key, n)), dt)
+        return dict(args=[R], expect=N64(R), canon=rot_of_vecs, bound=256 * eps_of(dt) + FLOOR_M2Q)
+
+    @spec("vector_rotation", L.vector_rotation)
+    def _(key, n, dt, D, batch):
+        a = _unit_rows(hash_noise((n, 3), key, -1.0, 1.0), [1.0, 0.0, 0.0])
+        ax = np.cross(a, _unit_rows(hash_noise((n, 3), key + 5, -1.0, 1.0), [0.0, 1.0, 0.0]))
+        ax = _unit_rows(ax, [0.0, 0.0, 1.0])
+        ax = _unit_rows(ax - (ax * a).sum(1, keepdims=True) * a, [0.0, 0.0, 1.0])       # axis orthogonal to a
+        ang = hash_noise((n, 1), key + 9, 0.3, 1.2)                                   # angle(a, b) < pi/2 (asin range)
+        b = np.stack([ref.axis_angle_matrix(ax[i] * ang[i]) @ a[i] for i in range(n)])
+        ta, tb = T(np.round(a * 2.0, 4), dt), T(np.round(b * 3.0, 4), dt)
+        ua, ub = _unit_rows(N64(ta), [1, 0, 0]), _unit_rows(N64(tb), [1, 0, 0])
+        cr = np.cross(ua, ub)
+        sn = np.linalg.norm(cr, axis=1, keepdims=True)
+        expect = rot_of_vecs(cr / sn * np.arcsin(sn))
+        cosmin = float(np.sqrt(1 - sn.max() ** 2))
+        return dict(args=[ta, tb], expect=expect, canon=ident, bound=256 * eps_of(dt) / cosmin + floor_aa(1.2), orth=False,
+                    skip=bool(np.abs(ax).sum() == 0 or sn.min() < 0.2 or sn.max() > 0.95))
+
+    def euler3(key, n, dt, D, batch, fn_name):
+        order = ORDERS[key % 12]
+        a = T(np.round(hash_noise((n, 3), key, -3.1, 3.1), 3), dt)
+        hom = bool((key // 12) % 2)
+        exp = euler_reference(3, order, N64(a))
+        if hom:
+            exp = np.concatenate([exp, np.zeros((n, 3, 1))], axis=-1)
+        return dict(args=[a], kwargs={"order": order, "homogeneous": hom}, expect=exp, canon=ident, bound=64 * eps_of(dt),
+                    inverse=(lambda: ([-a.flip(-1)], {"order": order[::-1], "homogeneous": hom})), labels=[f"order={order}", f"hom={hom}"])
+
+    specs["euler_rotation_matrix"] = (A.euler_rotation_matrix, lambda *x: euler3(*x, "euler"))
+    specs["rotation_matrix"] = (A.rotation_matrix, lambda *x: euler3(*x, "rotation"))
+
+    @spec("euler_rotation_matrix_2d", A.euler_rotation_matrix)
+    def _(key, n, dt, D, batch):
+        a = T(np.round(hash_noise((n, 1), key, -3.1, 3.1), 3), dt)
+        return dict(args=[a], expect=euler_reference(2, None, N64(a)), canon=ident, bound=64 * eps_of(dt), inverse=lambda: [-a])
+
+    @spec("euler_rotation_angles", A.euler_rotation_angles)
+    def _(key, n, dt, D, batch):
+        order = IMPLEMENTED_INVERSE[key % 2]
+        ang = np.round(hash_noise((n, 3), key, -3.1, 3.1), 3)
+        ang[:, 1] = np.round(hash_noise((n,), key + 3, 0.3, 2.8), 3)
+        R = T(euler_reference(3, order, ang), dt)
+        return dict(args=[R], kwargs={"order": order}, expect=N64(R), canon=lambda g: euler_reference(3, order, g),
+                    bound=64 * eps_of(dt) * (1 + 1 / math.sin(0.3)), labels=[f"order={order}"])
+
+    @spec("scaling_transform", A.scaling_transform)
+    def _(key, n, dt, D, batch):
+        sc = T(np.round(hash_noise((n, D), key, 0.3, 3.0), 3), dt)
+        exp = np.zeros((n, D, D))
+        for i in range(D):
+            exp[:, i, i] = N64(sc)[:, i]
+        return dict(args=[sc], expect=exp, canon=ident, bound=0.0, orth=False)
+
+    @spec("shear_matrix", A.shear_matrix)
+    def _(key, n, dt, D, batch):
+        a = T(np.round(hash_noise((n, 1 if D == 2 else 3), key, -1.2, 1.2), 3), dt)
+        exp = np.tile(np.eye(D), (n, 1, 1))
+        for j, (r, c) in enumerate([(0, 1)] if D == 2 else [(0, 1), (0, 2), (1, 2)]):
+            exp[:, r, c] = np.tan(N64(a)[:, j])
+        return dict(args=[a], expect=exp, canon=ident, bound=64 * eps_of(dt) * (1 + math.tan(1.2) ** 2), orth=False)
+
+    @spec("translation", A.translation)
+    def _(key, n, dt, D, batch):
+        o = T(np.round(hash_noise((n, D), key, -9.0, 9.0), 3), dt)
+        hom = bool(key % 2)
+        return dict(args=[o], kwargs={"homogeneous": hom}, expect=np_full(N64(o)[..., None], D), canon=lambda r: np_full(r, D), bound=0.0,
+                    orth=False, labels=[f"hom={hom}"])
+
+    @spec("identity_transform", A.identity_transform)
+    def _(key, n, dt, D, batch):
+        hom = bool(key % 2)
+        exp = np.zeros((n, D, D + 1 if hom else D))
+        exp[:, range(D), range(D)] = 1.0
+        return dict(args=[(n, D)], kwargs={"homogeneous": hom, "dtype": dt}, expect=exp, canon=ident, bound=0.0, orth=False, labels=[f"hom={hom}"])
+
+    @spec("affine_rotation_matrix", A.affine_rotation_matrix)
+    def _(key, n, dt, D, batch):
+        R = rot_of_quats(iso_quats(key, n))
+        U = np.tile(np.eye(3), (n, 1, 1))
+        U[:, 0, 1], U[:, 0, 2], U[:, 1, 2] = np.round(hash_noise((3, n), key + 1, -0.6, 0.6), 3)
+        Sc = np.round(hash_noise((n, 3), key + 2, 0.5, 2.0), 3)
+        M = T(np.matmul(R, U * Sc[:, None, :]), dt)                  # rotation o shearing o scaling (documented order)
+        kap = float(max(np.linalg.cond(U[i] * Sc[i][None, :]) for i in range(n)))
+        return dict(args=[M], expect=R, canon=ident, bound=64 * eps_of(dt) * kap * kap)
+
+    def forms(key, n, batch):
+        return {"form": "tah"[key % 3], "batch": batch, "key": key, "amp": 2.0, "t1d": bool(key % 2)}
+
+    @spec("as_homogeneous_matrix", L.as_homogeneous_matrix)
+    def _(key, n, dt, D, batch):
+        x = build_operand(forms(key, n, batch), D, n, dt)
+        return dict(args=[x], expect=model_of(x, D), canon=ident, bound=0.0, orth=False, labels=["form=" + "tah"[key % 3]])
+
+    @spec("homogeneous_matrix", L.homogeneous_matrix)
+    def _(key, n, dt, D, batch):
+        x = build_operand(forms(key, n, batch), D, n, dt)
+        return dict(args=[x], expect=model_of(x, D), canon=ident, bound=0.0, orth=False, labels=["form=" + "tah"[key % 3]])
+
+    def matmul(key, n, dt, D, batch):
+        fa, fb = forms(key, n, batch), forms(key // 3 + 1, n, ("none", "1", "N")[key % 3] if batch != "none" else "none")
+        a, b = build_operand(fa, D, n, dt), build_operand(fb, D, n, dt)
+        ma, mb = model_of(a, D), model_of(b, D)
+        return dict(args=[a, b], expect=np_compose(ma, mb), canon=lambda r: np_full(r, D), bound=64 * eps_of(dt) * max(1.0, np_abs_compose(ma, mb)),
+                    orth=False, labels=["forms=" + fa["form"] + fb["form"]])
+
+    specs["homogeneous_matmul"] = (L.homogeneous_matmul, matmul)
+    specs["hmm"] = (L.hmm, matmul)
+
+    @spec("homogeneous_transform", L.homogeneous_transform)
+    def _(key, n, dt, D, batch):
+        x = build_operand(forms(key, n, batch), D, n, dt)
+        p = T(points_array(D, key, (1 if batch != "N" else n, 3)), dt)
+        f = model_of(x, D)
+        return dict(args=[x, p], expect=np_apply(f.reshape((-1, D, D + 1)), N64(p)), canon=ident,
+                    bound=64 * eps_of(dt) * (float(np.abs(f).max()) + 1) * 6.0 * (D + 1), orth=False, labels=["form=" + "tah"[key % 3]])
+
+    return specs
+
+
+ISO_NAMES = ["angle_axis_to_rotation_matrix", "angle_axis_to_quaternion", "quaternion_log_to_exp", "normalize_quaternion",
+             "quaternion_to_rotation_matrix", "quaternion_to_angle_axis", "quaternion_exp_to_log", "rotation_matrix_to_quaternion",
+             "rotation_matrix_to_angle_axis", "vector_rotation", "euler_rotation_matrix", "rotation_matrix", "euler_rotation_matrix_2d",
+             "euler_rotation_angles", "scaling_transform", "shear_matrix", "translation", "identity_transform", "affine_rotation_matrix",
+             "as_homogeneous_matrix", "homogeneous_matrix", "homogeneous_matmul", "hmm", "homogeneous_transform"]
+ISO_FORMS = ("as_homogeneous_matrix", "homogeneous_matrix", "homogeneous_matmul", "hmm", "homogeneous_transform")
+_ISO = {}
+
+
+def selftest_iso():
+    from deepali.core import _kornia as K
+
+    missing = [n for n in K.__all__ if n not in ISO_NAMES]
+    assert not missing, ("conversion functions without isolation entry", missing)
+
+
+@st.composite
+def isolation_cases(draw):
+    fn = draw(st.sampled_from(ISO_NAMES))
+    n = draw(st.sampled_from([1, 1, 2, 3]))
+    batch = draw(st.sampled_from(["none", "1", "N"])) if fn in ISO_FORMS else ("1" if n == 1 else "N")
+    return {"fn": fn, "n": n if batch == "N" or fn not in ISO_FORMS else 1, "batch": batch, "D": draw(gen.dims()), "dtype": draw(gen.dtypes()),
+            "keys": draw(st.lists(st.integers(0, 10 ** 5), min_size=2, max_size=3, unique=True)),
+            "inverse_second": draw(st.booleans()), "write": draw(st.booleans())}
+
+
+def isolation_enumeration(tier):
+    i = 0
+    for fn in ISO_NAMES:
+        for n in (1, 2):
+            for dtype in ("float32", "float64"):
+                for batch in (("none", "1") if (fn in ISO_FORMS and n == 1) else ("1" if n == 1 else "N",)):
+                    i += 1
+                    yield {"fn": fn, "n": n, "batch": batch, "D": 2 + i % 2, "dtype": dtype, "keys": [3 * i + 1, 5 * i + 2, 7 * i + 40],
+                           "inverse_second": bool(i % 2), "write": True}
+
+
+def module_tensors():
+    """Tensors held as module-level state of the modules of the property (a result must never share their memory)."""
+    from deepali.core import _kornia, affine, linalg
+
+    out = []
+    for mod in (_kornia, affine, linalg):
+        for name, val in vars(mod).items():
+            if isinstance(val, torch.Tensor):
+                out.append((f"{mod.__name__}.{name}", val))
+    return out
+
+
+def storage_ptr(t: torch.Tensor) -> int:
+    return t.untyped_storage().data_ptr()
+
+
+def run_isolation(case):
+    if not _ISO:
+        _ISO.update(iso_specs())
+    name = case["fn"]
+    fn, builder = _ISO[name]
+    dt = tdtype(case["dtype"])
+    eps = eps_of(dt)
+    n, D, batch = case["n"], case["D"], case["batch"]
+    labels = [name, f"n={n}", "batch=" + batch, case["dtype"]]
+    calls = [builder(k, n, dt, D, batch) for k in case["keys"]]
+    if any(c.get("skip") for c in calls):
+        return {"ratio": 0.0, "nontrivial": False, "labels": labels + ["degenerate-input"]}
+    labels += calls[0].get("labels", [])
+    inv_of = None
+    if case.get("inverse_second") and calls[0].get("inverse") is not None:
+        inv = calls[0]["inverse"]()
+        args, kwargs = inv if isinstance(inv, tuple) else (inv, calls[0].get("kwargs", {}))
+        lin = calls[0]["expect"]
+        k = lin.shape[-2]
+        calls[1] = dict(calls[0], args=args, kwargs=kwargs, inverse=None,
+                        expect=np.concatenate([np.swapaxes(lin[..., :k], -1, -2), lin[..., k:]], axis=-1))
+        inv_of = (0, 1)
+        labels.append("with-inverse")
+    # 1. evaluate all calls; keep every result alive; snapshot each result right after its own call
+    keeps = [[a.clone() if isinstance(a, torch.Tensor) else a for a in c["args"]] for c in calls]
+    results, snaps = [], []
+    for c in calls:
+        r = fn(*c["args"], **c.get("kwargs", {}))
+        results.append(r)
+        snaps.append(r.detach().clone())
+    what = f"{name}({case['dtype']}, leading size {n if batch != 'none' else 'none'})"
+    # 2. earlier results are bit-identical after the later calls, inputs untouched
+    for i, (r, s0) in enumerate(zip(results, snaps)):
+        if not torch.equal(r.detach(), s0):
+            d = float((r.detach().double() - s0.double()).abs().max())
+            raise Violation("result_overwritten_by_later_call", f"{what}: the result of call {i} changed (max {d:.3g}) when the function was "
+                                                                f"called again with other arguments")
+    for c, kp in zip(calls, keeps):
+        for a, b in zip(c["args"], kp):
+            if isinstance(a, torch.Tensor) and not torch.equal(a, b):
+                raise Violation("call_input_modified", f"{what} modified an argument")
+    # 3. no shared memory between results of different calls, or with module-level tensors
+    for i in range(len(results)):
+        for j in range(i + 1, len(results)):
+            if results[i].numel() and storage_ptr(results[i]) == storage_ptr(results[j]):
+                raise Violation("results_share_memory", f"{what}: results of calls {i} and {j} (different arguments) share their memory")
+        for mname, mt in module_tensors():
+            if results[i].numel() and storage_ptr(results[i]) == storage_ptr(mt):
+                raise Violation("result_shares_module_state", f"{what}: result shares memory with module-level tensor {mname}")
+    # 4. deferred comparison of every result against the float64 reference
+    worst = 0.0
+    canons = []
+    for i, (c, r) in enumerate(zip(calls, results)):
+        if r.dtype != dt:
+            raise Violation("call_dtype", f"{what}: result dtype {r.dtype}")
+        got = c["canon"](r.detach().double().numpy())
+        canons.append(got)
+        exp = c["expect"]
+        if got.size == exp.size and got.shape != exp.shape:
+            got = got.reshape(exp.shape)
+        worst = max(worst, check_close(got, exp, c["bound"], "deferred_value",
+                                       f"{what}: result of call {i}, compared after {len(calls)} calls, is not the value of its own arguments"))
+    if inv_of is not None:
+        a, b = canons[0], canons[1]
+        k = a.shape[-2]
+        prod = np.matmul(a[..., :k], b[..., :k])
+        worst = max(worst, check_close(prod, np.broadcast_to(np.eye(k), prod.shape), 4 * (calls[0]["bound"] + 16 * eps), "rotation_times_inverse",
+                                       f"{what}: R(x) R(x^-1) != I with both factors computed before the product"))
+    # 5. writing into the last result must not reach what the function returns afterwards
+    if case.get("write"):
+        last = results[-1]
+        if last.numel() and all(not (st_ == 0 and sz > 1) for st_, sz in zip(last.stride(), last.shape)):
+            last.add_(1.0)
+            again = fn(*keeps[0], **calls[0].get("kwargs", {}))
+            check_close(again, snaps[0], 4 * eps * float(snaps[0].abs().max() + 1), "result_write_leaks",
+                        f"{what}: after an in-place change of a returned tensor the function returns other values for the first arguments")
+            labels.append("write")
+    return {"ratio": worst, "nontrivial": len(calls) >= 2, "labels": labels}
+
+
+# ---------------------------------------------------------------------------------------
 
 FACETS = [
     Facet("hmm_forms", run_hmm, strategy=hmm_cases, enumerate=hmm_enumeration, exhaustive_tiers=("quick", "thorough"),
@@ -1024,4 +1685,18 @@ FACETS = [
           rule="EulerRotation/QuaternionRotation/Iso-/AnisotropicScaling/Shearing/Translation/HomogeneousTransform, Parameter- and "
                "tensor-held, setter/getter, matrix_(), constructor; non-trivial = generic values and N > 1",
           quick=1000, thorough=40000, shards=16, quick_shards=2),
+    Facet("setter_toggles", run_toggles, strategy=toggle_cases, enumerate=toggle_enumeration, exhaustive_tiers=("quick", "thorough"),
+          rule="the seven linear transform classes, stand-alone or as member of Rigid/RigidQuaternion/Similarity/Affine/FullAffineTransform; "
+               "0-2 public state toggles before and 1-3 between setter and getters out of {requires_grad_(False/True) of the module, "
+               "params.requires_grad = False/True, eval, train, to(float64/float32), state_dict -> load_state_dict into a fresh twin, copy, "
+               "deepcopy, zero_grad}; read through the transform itself, inverse(), inverse(link=True), inverse().inverse(); two transforms "
+               "with different values alive, all getters evaluated before any comparison; class x toggle enumerated (168); "
+               "non-trivial = Parameter-held and a flag/dtype/copy toggle between set and get",
+          quick=700, thorough=30000, shards=16, quick_shards=2),
+    Facet("call_isolation", run_isolation, strategy=isolation_cases, enumerate=isolation_enumeration, exhaustive_tiers=("quick", "thorough"),
+          rule="every conversion function of core/_kornia.__all__ (completeness asserted at start-up), the matrix constructors of core/affine "
+               "and the operand-form functions of core/linalg: 2-3 calls with different generated arguments (optionally the second = inverse "
+               "rotation of the first), leading size exactly 1 / N / none, both dtypes; all results alive, snapshot after each call, every "
+               "comparison after the last call; function x n in {1,2} x dtype enumerated; non-trivial = at least two calls",
+          quick=600, thorough=20000, shards=8),
 ]
